@@ -11,12 +11,6 @@ let string_of_clause = function
   | ClOnTimeLost -> "on_time_lost" | ClEarlyFire -> "early_fire" | ClWatermarkOrigin -> "watermark_origin"
   | ClLateUpdateShape -> "late_update_shape" | ClTooLateCounted -> "too_late_counted" | ClFarFuture -> "far_future"
 
-let string_of_sclause = function
-  | SMembership -> "membership" | SUnknownRow -> "unknown_row" | STwice -> "twice" | SOrder -> "order"
-  | STooEarlyStart -> "too_early_start" | SRowMissing -> "row_missing" | SIntervalLost -> "interval_lost"
-  | SEarlyFire -> "early_fire" | SWatermarkOrigin -> "watermark_origin" | SLateUpdateShape -> "late_update_shape"
-  | SLateUpdateMissing -> "late_update_missing" | STooLateCounted -> "too_late_counted"
-
 (* split a token list at "#" separators *)
 let split_hash (toks : string list) : string list list =
   let rec go acc cur = function
@@ -95,17 +89,4 @@ let run_hops (c : cfg) (hops : hop list) : ev list =
         let (s1, e) = drain s 200 [] in e @ go s1 r in
   go st0 hops
 
-
-let run_shops (c : scfg) (hops : hop list) : ev list =
-  let rec go s = function
-    | [] -> []
-    | HOp o :: r -> let (s1, e) = sstep c s o in e @ go s1 r
-    | HDeliver inj :: r -> let (s1, e) = sdeliver c s inj in e @ go s1 r
-    | HDrain :: r ->
-        let rec drain s n acc =
-          if n = 0 then (s, acc) else
-          let (s1, e) = sdeliver c s [] in
-          if e = [EvD0] then (s1, acc @ e) else drain s1 (n - 1) (acc @ e) in
-        let (s1, e) = drain s 200 [] in e @ go s1 r in
-  go sst0 hops
 
